@@ -174,7 +174,7 @@ def run_family(fam, tier, seed):
                              stderr=subprocess.STDOUT, text=True)
         h.stdout.close()
         procs.append((h, d, hcmd))
-    res = {'cases': 0, 'nontrivial': 0, 'mismatch': 0, 'oracle': 0, 'known': 0, 'fidelity': 0, 'MISMATCH': [], 'ORACLE': [],
+    res = {'cases': 0, 'nontrivial': 0, 'mismatch': 0, 'oracle': 0, 'known': 0, 'fidelity': 0, 'skipped': 0, 'MISMATCH': [], 'ORACLE': [],
            'KNOWN': [], 'SAMPLE': [], 'errors': [], 'cmds': []}
     for h, d, hcmd in procs:
         out, _ = d.communicate()
@@ -199,6 +199,8 @@ def run_family(fam, tier, seed):
                 res['errors'].append(line[:500])
         if not got_summary:
             res['errors'].append('driver printed no SUMMARY: ' + out[-300:])
+    if res['skipped'] * 4 > max(res['cases'], 1):
+        res['errors'].append(f"{res['skipped']} of {res['cases']} generated cases were skipped (generator no longer fits the implementation)")
     return res
 
 
